@@ -51,6 +51,18 @@ def impl_or_default(f, self_ty, meth, trait=CACHE):
     return dflt, dyn
 
 
+def d2(p, term):
+    """discriminant of a two-variant value (Option: None=0/Some=1, Result: Ok=0/Err=1) on a path: 0 / 1 / None. A branch
+    written as `let Ok(x) = r else {..}` or `while let Some(x) = ..` records 'not variant k' on its other edge, which for a
+    two-variant type is the other variant."""
+    d = p.state.discr.get(term)
+    if isinstance(d, int):
+        return d
+    if isinstance(d, tuple) and d and d[0] == "not" and len(d[1]) == 1 and list(d[1])[0] in (0, 1):
+        return 1 - list(d[1])[0]
+    return None
+
+
 def bool_fact(p, term):
     """True / False / None: what the path assumed about a boolean term it branched on"""
     out = None
